@@ -79,6 +79,34 @@ def plans_c06(prop, tier, seed):
     return plans
 
 
+def plans_c17(prop, tier, seed):
+    q = tier == "quick"
+    return [
+        dict(name="crash", audit="c17", mode="all",
+             consts=base_consts(NR=2, Writer0=[1, 2], Lid=["X"] * 2, Denied=[set()] * 2, MaxE=4, MaxOps=6 if q else 7,
+                                PCs={1, 2}, PubOn={1, 2}),
+             max_scripts=4000 if q else 40000),
+        dict(name="crash3", audit="c17", mode="all",
+             consts=base_consts(MaxE=4 if q else 5, MaxOps=6 if q else 8, PCs={1, 4}, PubOn={1}, Fn="HASH"),
+             max_scripts=1500 if q else 30000),
+        dict(name="crashSim", audit="c17", mode="all",
+             consts=base_consts(NR=3, MaxE=14, MaxOps=30, PCs={1, 2, 4, 8}, PubOn={1, 2, 3}),
+             simulate=(6 if q else 60, 30)),
+    ]
+
+
+def plans_c18(prop, tier, seed):
+    q = tier == "quick"
+    return [
+        dict(name="lk1", audit="c18", codec="cbor+lk1",
+             consts=base_consts(NR=2, Writer0=[1, 2], Lid=["X"] * 2, Denied=[set()] * 2, MaxE=4 if q else 5,
+                                MaxOps=5 if q else 7, PCs={1, 2, 4})),
+        dict(name="lk2", audit="c18", codec="cbor+lk2", mode="all",
+             consts=base_consts(NR=3, MaxE=12, MaxOps=24, PCs={1, 2, 4, 8}),
+             simulate=(6 if q else 60, 24)),
+    ]
+
+
 def plans_c15(prop, tier, seed):
     q = tier == "quick"
     return [
@@ -115,6 +143,8 @@ CHECKS = {
     "C10": dict(level="model_checking", run=fam_f.run_family_f),
     "C11": dict(level="model_checking", run=fam_f.run_family_f),
     "C15": dict(level="model_checking", run=run_l(plans_c15)),
+    "C17": dict(level="fault_enumeration", run=run_l(plans_c17)),
+    "C18": dict(level="model_checking", run=run_l(plans_c18)),
     "C19": dict(level="model_checking", run=fam_misc.run_c19),
     "C20": dict(level="model_checking", run=fam_misc.run_c20),
     "C16": dict(level="model_checking", run=run_l(plans_c16)),
